@@ -15,6 +15,9 @@ const GAMMA: f64 = 0.05;
 const T0: f64 = 10.0;
 const KAPPA: f64 = 0.75;
 
+pub fn leap_pub(rt: &RefT, x: &[f64], r: &[f64], eps: f64) -> (Vec<f64>, Vec<f64>, f64, bool) {
+    leap(rt, x, r, eps)
+}
 fn leap(rt: &RefT, x: &[f64], r: &[f64], eps: f64) -> (Vec<f64>, Vec<f64>, f64, bool) {
     let g0 = (rt.g)(x);
     let d = x.len();
@@ -390,7 +393,8 @@ fn eps0_backoff_cases(ctx: &Ctx) {
             let case = json!({"part": "eps0-backoff", "target": tname, "start": start, "init_momentum": m});
             ctx.evals(1);
             ctx.transitions(1);
-            match observe::<f64, BF64>(target.clone(), &start, 0.8, 1, &[(1, 0)], false, None, 1 << 11, Some(m.clone())) {
+            match super::nutsref::with_eval_budget(1 << 14, || observe::<f64, BF64>(target.clone(), &start, 0.8, 1, &[(1, 0)], false, None, 1 << 11, Some(m.clone()))) {
+                Err(e) if e.contains("runaway evaluations") => ctx.violation(Violation::new("C04:eps0-search-does-not-terminate", format!("the initial step-size search does not terminate within 2^14 target evaluations ({tname}, start {start:?}, momentum {m:?})"), case)),
                 Err(e) => ctx.violation(Violation::new("C04:panic", format!("NUTSChain::run(1,0) panicked during the step-size search ({tname}, start {start:?}, momentum {m:?}): {e}"), case)),
                 Ok(obs) => {
                     let eps0 = obs[0].init[0];
